@@ -14,12 +14,15 @@ CONSTANTS
   OpSet <- {ops}
   SampleMod = {mod}
   SampleSeed = {seed}
+  Ignore = {ignore}
 INVARIANT AllPropertiesHold
-INVARIANT AllValid
-INVARIANT RouteIndependent
+{invariants}
 INVARIANT Export
 CHECK_DEADLOCK FALSE
 """
+# state invariants of the machine besides "no transition fails a clause", and the property each belongs to
+STATE_INVARIANTS = {"AllValid": "C01", "RouteIndependent": "C04", "ReshapeRoundTrip": "C07"}
+
 
 
 def _desc(d, sym, kind):
@@ -62,20 +65,78 @@ def to_program(hist, sym, kind, tid):
     return {"tid": tid, "inputs": inputs, "steps": steps, "model_descs": True}
 
 
+def _counterexample(out):
+    """hist and bad of the last state of the error trace TLC printed."""
+    import re
+
+    def last(name):
+        k = out.rfind("/\\ " + name + " = ")
+        if k < 0:
+            return None
+        try:
+            v, _ = runner._parse_value(out, k + len("/\\ " + name + " = "))
+            return v
+        except (ValueError, IndexError):
+            return None
+
+    return last("hist"), last("bad")
+
+
 def run_machine(ck, sym, kind, pool, ops, rank=2, depth=3, mod=50, tids=None, timeout=1500):
+    """Model-check one instance.  When TLC finds a behaviour of the implementation-shaped model that fails a clause
+    of THIS check's property (or its state invariant), the behaviour is exported like any other program and replayed:
+    the real trace then fails the same clause (a VIOLATION) - or it does not, which means the model misdescribes the
+    code (reported as a machinery problem, never as a violation).  Clauses of other properties are put on the
+    Ignore list and the instance is run again, so that one defect does not hide the exploration for this property."""
     cfg = os.path.join(ck.scratch, f"MC_Machine_{sym}_{kind}_{ops}_{depth}.cfg")
-    with open(cfg, "w") as f:
-        f.write(CFG.format(sym=sym, kind=kind, pool=pool, rank=rank, depth=depth, ops=ops, mod=mod,
-                           seed=ck.seed % max(mod, 1)))
-    r, st = ck.model("MC_Machine.tla", cfg, workers=runner.NCPU, timeout=timeout, heap="12g")
-    progs = []
-    seen = set()
-    for v in runner.parse_tagged(r["out"], "PROG"):
-        key = runner._freeze(v[1])
+    ignore, invs = set(), dict(STATE_INVARIANTS)
+    progs, seen = [], set()
+
+    def add(hist, expect=None):
+        key = runner._freeze(hist)
         if key in seen:
-            continue
+            return None
         seen.add(key)
-        progs.append(to_program(v[1], sym, kind, tids() if tids else len(progs) + 1))
+        p = to_program(hist, sym, kind, tids() if tids else len(progs) + 1)
+        if expect is not None:
+            ck.expect_violation[p["tid"]] = expect
+        progs.append(p)
+        return p
+
+    for attempt in range(8):
+        with open(cfg, "w") as f:
+            f.write(CFG.format(sym=sym, kind=kind, pool=pool, rank=rank, depth=depth, ops=ops, mod=mod,
+                               seed=ck.seed % max(mod, 1),
+                               ignore="{" + ", ".join('"%s"' % c for c in sorted(ignore)) + "}",
+                               invariants="\n".join("INVARIANT " + n for n in invs)))
+        r, st = ck.model("MC_Machine.tla", cfg, workers=runner.NCPU, timeout=timeout, heap="12g", expect_ok=False)
+        for v in runner.parse_tagged(r["out"], "PROG"):
+            add(v[1])
+        if st["ok"] or r["timed_out"] or getattr(ck, "selftest", ""):
+            break
+        out = r["out"]
+        m = [n for n in ["AllPropertiesHold"] + list(invs) if f"Invariant {n} is violated" in out]
+        if not m:
+            ck.problems.append(f"model MC_Machine.tla/{cfg} did not pass:\n" + runner.tlc_error_summary(out, 30))
+            break
+        hist, bad = _counterexample(out)
+        if hist is None:
+            ck.problems.append(f"model MC_Machine.tla/{cfg}: could not read the counterexample")
+            break
+        if m[0] == "AllPropertiesHold":
+            clauses = sorted(bad or [])
+            own = [c for c in clauses if c.startswith(ck.pid + ".")]
+            ck.cov.setdefault("model_counterexamples", []).append({"instance": os.path.basename(cfg), "clauses": clauses})
+            if own:
+                add(hist, expect=own)
+                break
+            ignore |= set(clauses)
+        else:
+            ck.cov.setdefault("model_counterexamples", []).append({"instance": os.path.basename(cfg), "invariant": m[0]})
+            if invs[m[0]] == ck.pid:
+                add(hist, expect=[m[0]])
+                break
+            del invs[m[0]]
     ck.cov.setdefault("machine_programs_exported", 0)
     ck.cov["machine_programs_exported"] += len(progs)
     return progs
